@@ -87,6 +87,7 @@ func VerifC02MITM() {
 	o.answer = func(i int, req *http.Request) (*http.Response, error) {
 		return rawResponse(resSpec{status: 201, hval: "o", body: []byte("ok")}.wire(), req)
 	}
+	o.wraps = vf.Choice("round-tripper-works-on-a-copy-of-the-request", 2) == 1
 	m := &recorder{behave: behave, o: o, hijackedAt: -1}
 	p := NewProxy()
 	p.SetRoundTripper(o)
